@@ -400,7 +400,7 @@ Section PROGS.
           end)
       else k).
 
-  (* Project.clone(job): existed = os.path.lexists(dst) (any OSError reads as "not there"); a failed copy
+  (* Project.clone(job): existed = (os.lstat(dst) succeeds); a failed copy
      (other than "destination exists" / "source missing") removes the partial destination — only if this
      call created it — before the error is re-raised *)
   Definition job_clone {A} (ws : path) (i : str) (dst_ws : path) (k : unit + perr -> prog A) : prog A :=
@@ -409,14 +409,22 @@ Section PROGS.
       Do (CStat (dst_ws ++ [did])) (fun rs =>
         let cleanup (e : perr) : prog A :=
           if exists_r rs then k (inr e) else rmtree_ign 6 (dst_ws ++ [did]) (k (inr e)) in
-        copytree_p 6 true (ws ++ [i]) (dst_ws ++ [did]) (fun r =>
-          match r with
-          | FOk false => k (inl tt)
-          | FOk true => cleanup (POs EIO)                  (* shutil.Error: an OSError without errno *)
-          | FErr EEXIST => k (inr (PExn EDestinationExists))
-          | FErr ENOENT => k (inr (PExn EValueError))
-          | FErr e => cleanup (POs e)
-          end))) (fun e => k (inr e)).
+        let copy : prog A :=
+          copytree_p 6 true (ws ++ [i]) (dst_ws ++ [did]) (fun r =>
+            match r with
+            | FOk false => k (inl tt)
+            | FOk true => cleanup (POs EIO)                  (* shutil.Error: an OSError without errno *)
+            | FErr EEXIST => k (inr (PExn EDestinationExists))
+            | FErr ENOENT => k (inr (PExn EValueError))
+            | FErr e => cleanup (POs e)
+            end) in
+        (* ed42bbc: os.lstat(dst) in a try block: FileNotFoundError means "not there", any other error
+           propagates before anything is copied *)
+        match rs with
+        | FErr ENOENT => copy
+        | FErr e => k (inr (POs e))
+        | FOk _ => copy
+        end)) (fun e => k (inr e)).
 
   (* shutil.rmtree(p): the first error is raised *)
   Fixpoint rmtree_p {A} (fuel : nat) (p : path) (k : fres unit -> prog A) : prog A :=
@@ -486,16 +494,17 @@ Section PROGS.
              | n :: ns' =>
                  if str_eqb n SPF || str_eqb n DOCF then entries ns'
                  else
-                   (* os.path.isfile / os.path.isdir: a stat error reads as False; an entry that is "neither"
-                      is skipped without a word (known finding 5) *)
+                   (* 187ceef: one os.lstat per entry; its error propagates (ENOENT ends clear() quietly, like
+                      every ENOENT in this block); a directory goes through rmtree, anything else through remove *)
                    Do (CStat (dir ++ [n])) (fun rk =>
-                     if is_file_r rk then
-                       Do (CUnlink (dir ++ [n])) (fun r => match r with FOk _ => entries ns' | FErr e => fin (inr (POs e)) end)
-                     else
-                       Do (CStat (dir ++ [n])) (fun rk2 =>
-                         if is_dir_r rk2 then
-                           rmtree_top (dir ++ [n]) (fun r => match r with FOk _ => entries ns' | FErr e => fin (inr (POs e)) end)
-                         else entries ns'))
+                     match rk with
+                     | FErr e => fin (inr (POs e))
+                     | FOk (RKind KDir) =>
+                         rmtree_top (dir ++ [n]) (fun r => match r with FOk _ => entries ns' | FErr e => fin (inr (POs e)) end)
+                     | FOk (RKind KNone) => fin (inr (POs ENOENT))
+                     | FOk _ =>
+                         Do (CUnlink (dir ++ [n])) (fun r => match r with FOk _ => entries ns' | FErr e => fin (inr (POs e)) end)
+                     end)
              end) names
       | FOk _ => fin (inr (PExn EOther))
       | FErr e => fin (inr (POs e))
